@@ -29,7 +29,7 @@ func (e *env09) get(n string) (int, bool) {
 	return 0, false
 }
 
-var c09names = []string{"a", "b", "v"}
+var c09names = []string{"a", "b", "v", "env"} // env: a variable named like a built-in helper
 
 // the scope in which contentFor("shared") was (last) defined during the current rendering
 var sharedDef *env09
@@ -180,8 +180,11 @@ func init() {
 	register("C09", func(e *Env) {
 		renderPrelude()
 		e.perShard = 50
-		e.rep.Rule = "nestings to depth 3 of {for, user-function call, partial, contentFor+contentOf with data (the same stored block replayed several times with different data keys and with none), block helper with its own context}, each binding v, and functions that bind names and then fail on an unknown identifier where that is tolerated, with let / shadowing let / assignment / probe statements for names {a, b, v} at every level and a probe of every name after every construct; all single constructs with a fixed body exhaustively + random trees; judged against an environment-chain reference (constructs push a frame, lookups fall through, writes go to the top frame); distinct by template"
+		e.rep.Rule = "nestings to depth 3 of {for, user-function call, partial, contentFor+contentOf with data (the same stored block replayed several times with different data keys and with none), block helper with its own context}, each binding v, and functions that bind names and then fail on an unknown identifier where that is tolerated, with let / shadowing let / assignment / probe statements for names {a, b, v, env (also a built-in helper's name)} at every level and a probe of every name after every construct; all single constructs with a fixed body exhaustively + random trees; judged against an environment-chain reference (constructs push a frame, lookups fall through, writes go to the top frame); distinct by template"
 		judge := func(items []sitem, tag string) {
+			// env is also the name of a built-in helper: it is always bound by the template first, so
+			// that what the probes see is a template variable at every depth
+			items = append([]sitem{{Kind: "let", Name: "env", Val: 77}}, items...)
 			parts := map[string]string{}
 			var src, out strings.Builder
 			ctr := 0
